@@ -67,6 +67,18 @@ T = {
            "of_tau() with beta*|pole| > 709.78 at tau near 0 or beta (NaN); Matsubara values bit-identical"),
  "C15-b": ("C15", "Vertex4::value exchanges the frequency arguments of the exchange disconnected term: G14(n2)*G23(n1)",
            "n2==n3, n1!=n2 and an index combination with G14 != G23 (e.g. (i,j,j,i) with spin-split levels); storage and value() still agree with each other"),
+ "C11-b": ("C11", "GreensFunctionPart::Term::operator()(tau,beta) branch condition inverted (Pole<0 instead of Pole>0): each pole takes the numerically unstable form",
+           "of_tau() with beta*|pole| > ~709 near tau=0+ / beta-: NaN; G(i w_n) and G(z) untouched"),
+ "C16-b": ("C16", "MPIWorker member current_job_ declared after req and Status ('-Wreorder tidy-up'): the constructor posts its receive into current_job_ before setting it to -1",
+           "a non-root rank whose first order has already been delivered when it constructs its MPIWorker (race on the barrier exit): the job id is overwritten with -1, parts[-1].run()"),
+ "C17-b": ("C17", "the chase loops of GreensFunctionPart::compute rewritten as do ++it; while(it.index()<target && it): index() is read before the validity test",
+           "operators with different sparsity patterns whose exhausted inner vector is the last stored one (disconnected site with the container of all components, or symmetries ignored); no value changes, visible only under ASan/valgrind"),
+ "C18-b": ("C18", "IndexContainer4::set gives the doubly swapped alias (j,i,l,k) the permutation entry 6 instead of 7",
+           "a non-zero 2PGF read through the container with both index pairs reversed relative to the stored key; which key is stored depends on index order, hence on site names / ordering mode"),
+ "C19-b": ("C19", "Susceptibility::prepare tests isRetained(Aleft)||isRetained(Bright) (Aleft==Bright) instead of ...||isRetained(Aright)",
+           "truncateBlocks(eps>0) that discards blocks AND a block-changing bilinear (spin flip) whose source block is retained while its target block is truncated"),
+ "C20-b": ("C20", "the 6-argument LatticePresets::addHopping compares Label1's spin size with itself (the guard never fires)",
+           "two sites with different spin sizes and this overload: the exception comes only after some terms were stored, or not at all"),
 }
 results = {}
 for log in sys.argv[1:]:
